@@ -153,6 +153,20 @@ let dispatch cmd a =
       | OSlice (x, y) -> "s" ^ string_of_z x ^ ":" ^ string_of_z y
       | OSeek i -> "k" ^ string_of_z i
       | OErr e -> "e" ^ err_name e) outs)
+  | "sf_col" -> (* mask v : result of assigning v to each prior byte 0..255 *)
+    let m = zi 0 and v = zi 1 in
+    (match sf_assign m Z0 v with
+     | Err e -> "err:" ^ err_name e
+     | Ok _ -> tok_of_bytes (List.init 256 (fun b -> match sf_assign m (z_of_int b) v with Ok r -> r | Err _ -> z_of_int (-1))))
+  | "sf_getcol" -> let m = zi 0 in tok_of_bytes (List.init 256 (fun b -> sf_get m (z_of_int b)))
+  | "sf_arr" -> (* mask xbytes i:v,i:v *)
+    let sel = if Array.length a < 3 || a.(2) = "-" then [] else
+      List.map (fun t -> match String.split_on_char ':' t with
+        | [i; v] -> (nat_of_int (int_of_string i), z_of_string v) | _ -> failwith "sel") (String.split_on_char ',' a.(2)) in
+    res tok_of_bytes (sf_assign_arr (zi 0) (bytes_of_tok a.(1)) sel)
+  | "sf_cmpcol" -> (* mask op c : fast-path comparison for each byte 0..255, as 0/1 bytes *)
+    let m = zi 0 and op = zi 1 and c = zi 2 in
+    tok_of_bytes (List.init 256 (fun b -> if sf_cmp_fast m (z_of_int b) op c then z_of_int 1 else Z0))
   | _ -> "unknown-command " ^ cmd
 
 let () =
